@@ -2,7 +2,10 @@
 
 Domain: examples_per_shard x write sequences (splits interleaved, counts around
 multiples of the size, metadata changes at generated positions) x 1..3 filler
-sessions (root / new / reused sub-directory, handle kept or reopened).
+sessions (root / new / reused sub-directory, handle kept or reopened; npz also
+with a variable-size attribute declared after the id; rejected writes -- one
+attribute of the wrong shape / kind -- at generated positions; the writer
+program may seed the global random generators with a constant per session).
 Oracle (statement-level predicates, evaluated on the plain-json walk of the
 metadata AND on the decoded shard files):
   * 1 <= size <= eps for every recorded shard, recorded size == decodable size
@@ -19,7 +22,7 @@ from __future__ import annotations
 
 from hypothesis import strategies as st
 
-from vlib import dsops, history
+from vlib import dsops, history, oracles
 from vlib.core import Stage
 
 ID = "C10"
@@ -45,7 +48,8 @@ def _case(draw, tier):
     desc = dsops.simple_desc(fmt,
                              draw(st.sampled_from(dsops.COMPRESSIONS[fmt][:2])),
                              eps, ["xxh64"],
-                             payload=False)
+                             payload=False,
+                             var_attr=draw(st.booleans()))
     n_sessions = draw(st.integers(1, 3))
     ops = []
     for _ in range(n_sessions):
@@ -66,6 +70,7 @@ def _case(draw, tier):
             "runs": runs,
             "reopen": draw(st.booleans()),
             "shared_meta": draw(st.booleans()),
+            "rseed": draw(history.ST_RSEED),
         })
     return {"desc": desc, "ops": ops}
 
@@ -107,7 +112,12 @@ def run_case(case, ctx):
                                         "low" if n < 1 else "high"),
                              f"shard {sh['files']} records {n} examples, "
                              f"eps={eps}")
-                exs = dsops.decode_shard(h.root / sh["files"][0], desc)
+                ok, exs = oracles.guarded(
+                    ctx, "bounds", ("listed-shard-undecodable",),
+                    f"decoding listed shard {sh['files']} (records {n})",
+                    lambda: dsops.decode_shard(h.root / sh["files"][0], desc))
+                if not ok:
+                    continue
                 ids = [dsops.ex_id_of(e) for e in exs]
                 if len(ids) != n:
                     ctx.fail("bounds", ("recorded-vs-decoded",),
